@@ -82,8 +82,15 @@ def run(ctx, res):
                 "non-trivial = the line needs at least one fold (more than 74 octets); distinct by content")
     reqs = []
     impl = []
-    for kind, s in cases:
+    n_refused = 0
+    for ci, (kind, s) in enumerate(cases):
         res.dist(kind)
+        if ci % 7 == 3:
+            # a fold that fails in the middle (a lone surrogate cannot be encoded) must leave nothing behind for the next one
+            try:
+                Contentline("X-BROKEN:" + "\u00e9" * (ci % 40) + "abc\ud800tail" + "z" * 80).to_ical()
+            except UnicodeError:
+                n_refused += 1
         folded = Contentline(s).to_ical()
         impl.append(folded)
         res.count(s, nontrivial=len(s.encode("utf-8")) > 74)
@@ -97,6 +104,7 @@ def run(ctx, res):
         if why:
             res.fail("C06 oracle: " + why, s, observed=folded.decode("utf-8", "replace"))
         reqs.append(("foldline", s))
+    res.dist("refused folds interleaved (lone surrogate)", n_refused)
     # model correspondence: foldline, unfold on the implementation's own output
     if ctx.model:
         outs = ctx.model.batch(reqs)
